@@ -2,6 +2,9 @@ package store
 
 import (
 	"context"
+	"sync"
+
+	"github.com/prometheus/client_golang/prometheus"
 
 	"github.com/thanos-io/thanos/pkg/store/labelpb"
 	"github.com/thanos-io/thanos/pkg/store/storepb"
@@ -103,3 +106,37 @@ var errVerifWarn = verifErr("warn")
 type verifErr string
 
 func (e verifErr) Error() string { return string(e) }
+
+// VerifC09Concurrent: the per-request limiter is shared by the goroutines of one request (one per block):
+// whatever the interleaving, the reservations that were granted never add up to more than the limit.
+func VerifC09Concurrent() {
+	limit := verifUint64("limit")
+	verifAssume(limit >= 1)
+	verifAssume(limit <= 4)
+	l := NewLimiter(limit, prometheus.NewCounter(prometheus.CounterOpts{Name: "verif_failed"}))
+	g := verifParam("G", 2)
+	granted := make([]uint64, g)
+	var wg sync.WaitGroup
+	for i := 0; i < g; i++ {
+		n := verifUint64(verifName("n", i))
+		verifAssume(n >= 1)
+		verifAssume(n <= 3)
+		wg.Add(1)
+		go func(i int, n uint64) {
+			defer wg.Done()
+			if l.Reserve(n) == nil {
+				granted[i] = n
+			}
+		}(i, n)
+	}
+	wg.Wait()
+	var total uint64
+	for _, x := range granted {
+		total += x
+	}
+	verifAssert(total <= limit, "granted-reservations-within-limit")
+	if total > 0 && total < limit {
+		verifReach("granted-below-limit")
+	}
+	verifReach("end")
+}
